@@ -707,6 +707,22 @@ func (ec *evalCtx) callSpec(x *spec.Call) Val {
 			return Val{T: g}
 		}
 		v, ok := fc.callRes[key]
+		if !ok && x.Fun != "callresb" {
+			// no such call on any path: if the callee is a function of the module its result
+			// type is known, and the clause reads an unconstrained value of that type (vacuous
+			// under a called(...) guard, unprovable otherwise)
+			if callee := fc.P.Funcs[name]; callee != nil {
+				rs := callee.Signature.Results()
+				if len(x.Args) == 3 {
+					i, _ := strconv.Atoi(x.Args[2].(*spec.IntLit).Val)
+					if i < rs.Len() {
+						return fc.freshVal("nocall", rs.At(i).Type())
+					}
+				} else if rs.Len() == 1 {
+					return fc.freshVal("nocall", rs.At(0).Type())
+				}
+			}
+		}
 		if !ok {
 			fc.missingCall = key
 			// no such call on any path to this point: the value is irrelevant (guard with called(...))
